@@ -112,6 +112,12 @@ func h3Exchange(srv *wire.H3Server, sc *wire.H3Script, sent []byte, expect int, 
 		}
 		o.DLen = len(data)
 		o.PrefixOK = len(data) <= len(sent) && bytes.Equal(data, sent[:len(data)])
+		if sc.End == "connclose" && o.Class != "H3ConnErr" {
+			// the read failed for a reason of its own (e.g. more DATA than declared) before the
+			// peer's CONNECTION_CLOSE was seen: a follow-up written to the dying connection would
+			// be lost to a second fault, not to the reuse of a connection known to be broken
+			time.Sleep(300 * time.Millisecond)
+		}
 		resp2, err2 := c.R().Get(base + "/2")
 		switch {
 		case err2 != nil:
@@ -150,8 +156,8 @@ type h3Gen struct {
 	end     string
 	actions []wire.H3Action
 	segs    []string // C03Run.h3seg rendering of the actions
-	sent    []byte // every DATA payload byte written, in order
-	wire    []byte // every byte written behind the response HEADERS frame
+	sent    []byte   // every DATA payload byte written, in order
+	wire    []byte   // every byte written behind the response HEADERS frame
 	// by construction: the message is complete (every frame whole, ended by FIN) ...
 	complete bool
 	// ... and the end falls between two frames (FIN there is indistinguishable from the end
@@ -160,9 +166,9 @@ type h3Gen struct {
 	trailers   bool
 	hdrCut     int
 	noHeaders  bool
-	coding     string    // content-coding of the DATA ("" = none; "gzip" = transparently requested)
-	plain      []byte    // the body before coding
-	coded      []byte    // the whole coded body (sent is the part of it that was written)
+	coding     string // content-coding of the DATA ("" = none; "gzip" = transparently requested)
+	plain      []byte // the body before coding
+	coded      []byte // the whole coded body (sent is the part of it that was written)
 	interim    [][]wire.Field
 }
 
@@ -181,7 +187,7 @@ func (g *h3Gen) raw(b []byte) {
 
 var h3Shapes = []string{"fin", "fin-early", "fin-midframe", "fin-midheader", "reset", "reset-midframe", "connclose",
 	"connclose-midframe", "surplus-frame", "surplus-inframe", "zero-and-grease", "grease-cut", "trailers", "trailers-cut",
-	"no-headers", "hdr-cut", "fin", "fin-midframe", "data-after-trailers", "short-by-frame"}
+	"no-headers", "hdr-cut", "fin", "fin-midframe", "data-after-trailers", "short-by-frame", "settings-cut", "settings-whole"}
 
 func genH3(rng *hk.Rand, shape string, round int) *h3Gen {
 	g := &h3Gen{shape: shape, end: "fin", cl: -1}
@@ -328,6 +334,19 @@ func genH3(rng *hk.Rand, shape string, round int) *h3Gen {
 	case "grease-cut":
 		gf := append(append(viLen(0x21, 0), viLen(uint64(rng.Range(2, 20)), 0)...), rng.Bytes(1)...)
 		g.raw(gf)
+		g.complete, g.atBoundary = false, false
+	case "settings-cut", "settings-whole":
+		// a SETTINGS frame has no business on a request stream: whole, the reader refuses it
+		// (and closes the connection); cut by the end of the stream it is a truncated frame
+		pl := hk.Pick(rng, [][]byte{{}, {0x06, 0x10}, {0x06, 0x40, 0x64, 0x21, 0x01}})
+		if shape == "settings-cut" {
+			if len(pl) == 0 {
+				pl = []byte{0x06, 0x10}
+			}
+			g.raw(append([]byte{0x04, byte(len(pl))}, pl[:rng.Intn(len(pl))]...))
+		} else {
+			g.raw(append([]byte{0x04, byte(len(pl))}, pl...))
+		}
 		g.complete, g.atBoundary = false, false
 	case "trailers", "trailers-cut", "data-after-trailers":
 		tf := wire.H3HeadersFrame([]wire.Field{{Name: "x-trailer", Value: "t"}, {Name: "x-sum", Value: fmt.Sprint(L)}})
